@@ -97,6 +97,8 @@ def program(rng, prof):
         w = [10, 2, 2, 12, 3, 3, 10, 3, 10, 1, 2]
         for _ in range(rng.randint(3, 7)):
             p.append("SRate %d" % rng.randint(0, 4))
+            if rng.random() < 0.3:
+                p.append("StallHold %d" % rng.choice([0, 3, 20, 100]))
             if rng.random() < 0.4:
                 p.append("CFcMax %d" % rng.randint(0, 2))
             p.append("Rep %d %s %s" % (rng.choice([3, 7, 49, 50, 51, 120, 290]), rng.choice(["CSend", "CSendv"]), ln(rng, SMALL)))
@@ -141,6 +143,9 @@ def directed():
         # server has read some -- and must then report success, the request being queued already
         for rl in (0, 1, 2):
             P.append([c, "SRate %d" % rl, "Rep 330 CSend 16", "Rep 12 SPoll", "Rep 200 CSendv 17", "Until 700 SPoll", "SPoll"])
+        # ... also when the server stays busy for a while (the send sees dozens of refusals before it can complete)
+        for hold in (17, 60, 300):
+            P.append([c, "StallHold %d" % hold, "Rep 300 CSendv 16", "Rep 5 SPoll", "Rep 40 CSend 17", "Until 700 SPoll", "StallHold 0"])
         P.append([c, "Rep 285 CSend 16", "SRate 3", "Rep 3 SPoll", "SRate 0", "Rep 10 CSend 24", "Until 700 SPoll", "Rep 300 CSendv 16", "Until 700 SPoll"])
         # notifications owed, requests switched off, the client drains every byte: handling POLLOUT must still write them
         for off in (3, 4):
